@@ -62,17 +62,27 @@ var fpEnvs = []Env{
 
 // fingerprint compiles src under cc and renders what the program is and does.
 func fingerprint(cc *eval.Config, src string) string {
+	fp, _ := fingerprintE(cc, src)
+	return fp
+}
+
+func fingerprintE(cc *eval.Config, src string) (string, *eval.Expr) {
 	var e *eval.Expr
 	var err error
 	p := safely(func() M { e, err = eval.Compile(cc, src); return nil })
 	if p != nil {
-		return "panic:" + fmt.Sprint(p["msg"], p["v"])
+		return "panic:" + fmt.Sprint(p["msg"], p["v"]), nil
 	}
 	if err != nil {
-		return "err:" + err.Error()
+		return "err:" + err.Error(), nil
 	}
+	return render(e), e
+}
+
+// render: what a compiled program is (Dump, DumpTable) and does (results on two bindings)
+func render(e *eval.Expr) string {
 	var sb strings.Builder
-	p = safely(func() M {
+	p := safely(func() M {
 		sb.WriteString(eval.Dump(e))
 		sb.WriteString("\n")
 		sb.WriteString(eval.DumpTable(e, true))
@@ -105,6 +115,9 @@ var compileSources = []string{
 	"(and (| x y) (gt (add n 1) m) (== s \"a\") (in n l) (f z) (|| y z) (&& x z))",
 	"(or (== n m) (eq s \"b\") (> n m) (&& x y) (p z) (|| z y))",
 	"(and (lt m 2) (== n 1))",
+	"(and (= (p 1) 1) (= (f 2) 2) x)", // calls with constant arguments: folded exactly for the names declared stateless
+	"(if (p true) n m)",
+	"(and (> n 1) x (p true))",
 }
 
 // the same kind of sources in infix notation (configs with InfixNotation pick from this list; a source index means
@@ -126,6 +139,9 @@ var compileSourcesInfix = []string{
 	"u && w > 0",
 	"\"a\" == s || in(s, [\"a\" \"b\"]) && in(1, [1])",
 	"x || y || z || n > 1 || m > 1 || f(x)",
+	"p(1) == 1 && f(2) == 2 && x",
+	"if(p(true), n, m)",
+	"n > 1 && x && p(true)",
 }
 
 func sourcesFor(cc *eval.Config) []string {
@@ -182,19 +198,83 @@ func famCompile() {
 	}
 	for i := 0; i < nseq; i++ {
 		id++
-		cfgs := []*eval.Config{baseConfig(r, r.Intn(16)), baseConfig(r, r.Intn(16))}
+		k1, k2 := r.Intn(16), r.Intn(16)
+		cfgs := []*eval.Config{baseConfig(r, k1), baseConfig(r, k2)}
+		// how each config came to its contents (its kind and the caller's changes since): a config with a known history
+		// can be rebuilt from scratch -- a twin that no compilation has touched yet
+		kinds := []int{k1, k2}
+		muts := [][]func(*eval.Config){nil, nil}
+		type kept struct {
+			step int
+			e    *eval.Expr
+			was  string
+		}
+		var programs []kept
 		steps := []interface{}{}
-		for s := 0; s < 3+r.Intn(8); s++ {
+		compileStep := func(ci, si int) {
+			cc := cfgs[ci]
+			before := snapshot(cc)
+			fp, e := fingerprintE(cc, sourcesFor(cc)[si])
+			after := snapshot(cc)
+			if e != nil {
+				programs = append(programs, kept{len(steps), e, fp})
+			}
+			steps = append(steps, M{"op": "compile", "cfg": ci, "src": si, "before": hashOf(before), "after": hashOf(after), "fp": hashOf(fp), "fpend": hashOf(fp),
+				"compiled": !strings.HasPrefix(fp, "err:") && !strings.HasPrefix(fp, "panic:"), "panic": strings.HasPrefix(fp, "panic:")})
+		}
+		nsteps := 3 + r.Intn(8)
+		for s := 0; s < nsteps; s++ {
 			ci := r.Intn(len(cfgs))
 			cc := cfgs[ci]
+			switch r.Intn(8) {
+			case 6:
+				// the caller changes its own config in place: later compilations must follow the new contents
+				var m func(*eval.Config)
+				switch r.Intn(4) {
+				case 0:
+					m = func(c *eval.Config) { // another list of the same length
+						for j, n := range c.StatelessOperators {
+							c.StatelessOperators[j] = map[string]string{"p": "f", "f": "p"}[n]
+							if c.StatelessOperators[j] == "" {
+								c.StatelessOperators[j] = n
+							}
+						}
+					}
+				case 1:
+					m = func(c *eval.Config) { c.ConstantMap["K"] = int64(5) }
+				case 2:
+					m = func(c *eval.Config) { c.CostsMap["x"], c.CostsMap["n"] = 77, -2 }
+				default:
+					m = func(c *eval.Config) { c.StatelessOperators = append(c.StatelessOperators[:0:0], "f", "p") }
+				}
+				m(cc)
+				if ci < 2 {
+					muts[ci] = append(muts[ci], m)
+				}
+				steps = append(steps, M{"op": "mutate", "cfg": ci, "src": 0, "before": "", "after": hashOf(snapshot(cc)), "fp": ""})
+				continue
+			case 7:
+				// a twin: the same contents built from scratch; the sources that are sensitive to what is declared stateless
+				// are compiled on the used config and on the twin
+				if ci >= 2 || len(cfgs) >= 5 {
+					continue
+				}
+				tw := baseConfig(r, kinds[ci])
+				for _, m := range muts[ci] {
+					m(tw)
+				}
+				cfgs = append(cfgs, tw)
+				ti := len(cfgs) - 1
+				steps = append(steps, M{"op": "twin", "cfg": ci, "src": 0, "before": hashOf(snapshot(cc)), "after": hashOf(snapshot(tw)), "fp": ""})
+				for _, si := range []int{16, 17, 18, 8, r.Intn(len(compileSources))} {
+					compileStep(ci, si)
+					compileStep(ti, si)
+				}
+				continue
+			}
 			switch r.Intn(6) {
 			case 0, 1, 2, 3:
-				si := r.Intn(len(compileSources))
-				before := snapshot(cc)
-				fp := fingerprint(cc, sourcesFor(cc)[si])
-				after := snapshot(cc)
-				steps = append(steps, M{"op": "compile", "cfg": ci, "src": si, "before": hashOf(before), "after": hashOf(after), "fp": hashOf(fp),
-					"compiled": !strings.HasPrefix(fp, "err:") && !strings.HasPrefix(fp, "panic:"), "panic": strings.HasPrefix(fp, "panic:")})
+				compileStep(ci, r.Intn(len(compileSources)))
 			case 4:
 				// CopyConfig / ExtendConf, then mutate the copy in every component
 				var cp *eval.Config
@@ -228,9 +308,17 @@ func famCompile() {
 			case 5:
 				// the caller changes its own config: later compilations must follow
 				opt := optNames[r.Intn(4)]
-				cc.CompileOptions[opt] = !cc.CompileOptions[opt]
+				m := func(c *eval.Config) { c.CompileOptions[opt] = !c.CompileOptions[opt] }
+				m(cc)
+				if ci < 2 {
+					muts[ci] = append(muts[ci], m)
+				}
 				steps = append(steps, M{"op": "mutate", "cfg": ci, "src": 0, "before": "", "after": hashOf(snapshot(cc)), "fp": ""})
 			}
+		}
+		// every program compiled during the history is still what it was when it was compiled
+		for _, k := range programs {
+			steps[k.step].(M)["fpend"] = hashOf(render(k.e))
 		}
 		emit(M{"fam": "compile", "for": "C08", "kind": "history", "id": id, "steps": steps, "src": "compile history"})
 	}
